@@ -40,6 +40,10 @@ def g_unit(r, klass, kind_pool):
     a = gv.g_message(r, gv.SMALL, op=op, mid=r.randrange(1, 50))
     data = rfc4511.encode(a)
     if klass == "valid":
+        if r.random() < 0.25:  # the same unit with its outer length in a (valid) non-minimal long form
+            root = ber.parse(data)
+            body = data[root.hdr:]
+            return b"\x30" + ber.length_octets(len(body), r.choice([1, 2, 3, 4, 5])) + body
         return data
     root, nodes = C.nodes_of(data)
     if klass == "overrun":
@@ -52,7 +56,7 @@ def g_unit(r, klass, kind_pool):
     if klass == "missing":
         x = r.randrange(5)
         if x == 0:
-            return b"\x30\x00"
+            return r.choice([b"\x30\x00", b"\x30\x81\x00", b"\x30\x82\x00\x00", b"\x30\x84\x00\x00\x00\x00", b"\x30\x85\x00\x00\x00\x00\x00"])
         if x == 1:
             return b"\x30\x03\x02\x01" + bytes([r.randrange(1, 100)])
         if x == 2:
